@@ -21,6 +21,7 @@ unsigned char LEDGER[IDS];
 unsigned char DROPCOUNT[IDS];
 #endif
 _Bool DOUBLE_DROP = 0, GARBAGE_DROP = 0, GARBAGE_READ = 0;
+unsigned char DROP_ORDER[64]; unsigned DROP_N = 0;      /* ids in the order their destructors ran */
 enum { F_NONE = 0, F_DROP, F_CLONE, F_CALL, F_NEXT, F_EQ };
 unsigned FAULT_KIND = F_NONE, FAULT_AT = 0;
 unsigned EV[6];
@@ -31,6 +32,8 @@ static tok_t fresh(void) { tok_t t; t.id = NEXT_FRESH; if (NEXT_FRESH < IDS) LED
 
 static void tok_drop(tok_t *p) {
   unsigned char id = p->id;
+  if (DROP_N < 64) DROP_ORDER[DROP_N] = id;
+  DROP_N++;
 #ifdef SELFTEST
   if (id < IDS) DROPCOUNT[id]++;
 #endif
